@@ -2544,7 +2544,7 @@ func (tc *typechecker) checkMethodExpression(t *typeInfo, expr *ast.Selector) *t
 			return args[0].MethodByName(method.Name).Call(args[1:])
 		}
 		methExpr := reflect.MakeFunc(reflect.FuncOf(in, out, mt.IsVariadic()), f)
-		ti.Type = removeEnvArg(methExpr.Type(), false)
+		ti.Type = removeEnvArg(methExpr.Type(), true)
 		ti.value = methExpr
 	} else {
 		ti.Type = removeEnvArg(method.Type, true)
@@ -2590,7 +2590,7 @@ func (tc *typechecker) checkMethodValue(t *typeInfo, expr *ast.Selector) (*typeI
 			panic(tc.errorf(expr, "%s undefined (cannot refer to unexported field or method %s)", expr, name))
 		}
 		return &typeInfo{
-			Type:       removeEnvArg(method.Type, true),
+			Type:       removeEnvArg(method.Type, false),
 			value:      name,
 			MethodType: methodValueInterface,
 			Properties: propertyIsNative | propertyHasValue,
